@@ -429,7 +429,7 @@ def clauses(kind, lst):
         return ""
     out = ["    %s\n" % kind]
     for lab, cl in lst:
-        out.append("        %s, //@L %s\n" % (cl, lab))
+        out.append("        %s,%s\n" % (cl, (" //@L " + lab) if lab else ""))
     return "".join(out)
 
 
@@ -443,12 +443,14 @@ GLOBAL_RULES = [
 
 
 def build_item(repo, item, log):
-    path = os.path.join(repo, item["file"])
-    try:
-        src = open(path).read()
-    except OSError as e:
-        raise ExtractError("lost anchor: cannot read %s: %s" % (path, e))
     kind = item.get("kind", "fn")
+    src = ""
+    if kind != "stub":
+        path = os.path.join(repo, item["file"])
+        try:
+            src = open(path).read()
+        except OSError as e:
+            raise ExtractError("lost anchor: cannot read %s: %s" % (path, e))
     name = item.get("name")
     if kind == "fn":
         f = locate_fn(src, item["path"])
@@ -475,6 +477,38 @@ def build_item(repo, item, log):
         body = "{\n" + item.get("pre", "") + r["text"] + item.get("post", "") + "\n}"
         where = "%s:%d-%d (region of %s)" % (item["file"], r["line"], r["end_line"], item["within"])
         name = name or re.match(r"fn\s+(\w+)", sig).group(1)
+    elif kind == "mirror":
+        # R15 struct mirror: every mirrored field must exist in the source struct with the recorded source type
+        m = re.search(r"(?m)^\s*(?:pub(?:\([a-z]+\))?\s+)?struct\s+%s\b[^;{]*\{" % re.escape(item["struct"]), src)
+        if not m:
+            raise ExtractError("lost anchor: struct %s in %s" % (item["struct"], item["file"]))
+        toks = lex.code_tokens(src)
+        ti = next(i for i, t in enumerate(toks) if t[1] == m.end() - 1)
+        body_src = src[m.end():toks[lex.match_close(src, toks, ti)][1]]
+        out = []
+        for fname, src_ty, new_ty in item["fields"]:
+            fm = re.search(r"(?m)^\s*(?:pub(?:\([a-z]+\))?\s+)?%s\s*:\s*(.+?),\s*(?://.*)?$" % re.escape(fname), body_src)
+            if not fm:
+                raise ExtractError("lost anchor: field %s.%s" % (item["struct"], fname))
+            if lex.norm(fm.group(1)) != lex.norm(src_ty):
+                raise ExtractError("field %s.%s has type %r, sidecar expects %r" % (item["struct"], fname, lex.norm(fm.group(1)), src_ty))
+            out.append("    pub %s: %s, // source type: %s" % (fname, new_ty, lex.norm(src_ty)))
+            if src_ty != new_ty:
+                log.add("R15", "struct mirror %s.%s" % (item["struct"], fname), src_ty, new_ty)
+        for extra in item.get("ghost_fields", []):
+            out.append("    pub %s," % extra)
+        where = "%s:%d" % (item["file"], lex.line_of(src, m.start()))
+        text = "// ---- struct mirror of %s (%d of its fields)\npub struct %s {\n%s\n}\n" % (where, len(item["fields"]), item.get("as", item["struct"]), "\n".join(out))
+        return dict(name=item["struct"], text=text, where=where, raw_lines=len(out), body=None, head=None, attrs="", is_type=True)
+    elif kind == "stub":
+        # assumed contract of a callee that is verified elsewhere (or not at all): listed in the evidence
+        head = item["sig"].rstrip() + "\n" + clauses("requires", item.get("requires")) + clauses("ensures", item.get("ensures"))
+        text = "// ---- ASSUMED CONTRACT (%s)\n#[verifier::external_body]\n%s{ unimplemented!() }\n" % (item.get("proved_in", "unproved"), head)
+        if item.get("impl"):
+            text = "impl %s {\n%s}\n" % (item["impl"], text)
+        nm = re.search(r"fn\s+(\w+)", item["sig"]).group(1)
+        return dict(name=nm, text=text, where="assumed contract; " + item.get("proved_in", "unproved"), raw_lines=0, body=None, head=None,
+                    attrs="", is_type=True, is_stub=True)
     elif kind == "lines":
         out = []
         for pat in item["patterns"]:
